@@ -74,11 +74,22 @@ func checkC16(c *ctx) {
 	seqs := cacheSeqs(L)
 	o := genVecOpts(c)
 	o.nVecFs = 1
-	nb := c.n(2, 8)
+	nb := c.n(4, 8)
 	for bi := 0; bi < nb; bi++ {
 		b := genVecBatch(c, 5+c.R.Intn(4), "k", o)
 		// make sure there are vectors
 		b[0].Fields = append(b[0].Fields, zh.Field{Name: "vec", Typ: 'v', Vec: &zh.VecDef{Dims: o.dims["vec"], Sim: o.sim["vec"], Opt: o.opt["vec"], Data: randVec(c, o.dims["vec"])}})
+		if bi%4 == 3 {
+			// a sparse vector field: 8 documents, three of them with one vector each
+			b = nil
+			for d := 0; d < 8; d++ {
+				doc := zh.Doc{Fields: []zh.Field{zh.IDField(fmt.Sprintf("k%02d", d)), {Name: "body", Len: 1, Toks: []zh.Tok{{Term: "x", Freq: 1}}}}}
+				if d == 1 || d == 4 || d == 6 {
+					doc.Fields = append(doc.Fields, zh.Field{Name: "vec", Typ: 'v', Vec: &zh.VecDef{Dims: o.dims["vec"], Sim: o.sim["vec"], Opt: o.opt["vec"], Data: randVec(c, o.dims["vec"])}})
+				}
+				b = append(b, doc)
+			}
+		}
 		vspec := vecSpec(c, b)
 		vf, _ := vfieldOf(vspec, "vec")
 		sb, _, err := zh.Build(b, 1026)
@@ -88,8 +99,28 @@ func checkC16(c *ctx) {
 		sb.Close()
 		nd := uint64(len(b))
 		e0 := []uint64{0}
-		if bi%2 == 1 {
+		switch bi % 4 {
+		case 1:
 			e0 = []uint64{1, 2}
+		case 2: // every document of the segment excluded
+			e0 = nil
+			for d := uint64(0); d < nd; d++ {
+				e0 = append(e0, d)
+			}
+		case 3: // at least as many excluded documents as the field has vectors, one vector document not among them
+			hasVec := map[uint64]bool{}
+			for _, dv := range vf.L[4].L {
+				hasVec[dv.L[0].N] = true
+			}
+			e0 = nil
+			spared := false
+			for d := uint64(0); d < nd; d++ {
+				if hasVec[d] && !spared {
+					spared = true
+					continue
+				}
+				e0 = append(e0, d)
+			}
 		}
 		var e1 []uint64 // empty bitmap
 		excepts := [][]uint64{e0, e1}
